@@ -359,6 +359,35 @@ def r05_2(prog, rep, rid='R05.2'):
                       'task ends as DONE')
 
 
+def _records_any(prog, K, f, a, depth=0):
+    """statement `a` records an exception on some dict: X['exception'] = ..,
+    X.update({'exception': ..}) / X.update(exception=..), or an own helper
+    method that does"""
+    for n in walk(a):
+        if isinstance(n, ast.Assign) and any(
+                isinstance(t, ast.Subscript) and
+                isinstance(t.slice, ast.Constant) and
+                t.slice.value == 'exception' for t in n.targets):
+            return True
+        if isinstance(n, ast.Call) and isinstance(n.func, ast.Attribute) and \
+                n.func.attr == 'update':
+            if any(kw.arg == 'exception' for kw in n.keywords) or (
+                    n.args and isinstance(n.args[0], ast.Dict) and any(
+                        isinstance(k, ast.Constant) and k.value == 'exception'
+                        for k in n.args[0].keys)):
+                return True
+        elif isinstance(n, ast.Call) and depth < 2 and \
+                call_name(n).startswith('self.') and \
+                call_name(n).count('.') == 1:
+            h = prog.resolve_call(f, n, K)
+            if h is not None and h is not f and h.cls is not None and \
+                    h.name != 'advance' and any(
+                        _records_any(prog, K, h, st, depth + 1)
+                        for st in h.node.body):
+                return True
+    return False
+
+
 def _handler_ancestors(g, nid):
     """handler nodes from which nid is reachable without leaving the handler
     body lexically: approximated by predecessors reachable backwards until a
@@ -424,16 +453,26 @@ def r05_3(prog, rep, rid='R05.3'):
                                                'done'})
             hands = [c for x in region for c in I.stmt_calls(g.nodes[x])
                      if I.is_handon(c)]
-            rec = any(isinstance(g.nodes[x].ast, ast.Assign) and any(
-                isinstance(t, ast.Subscript) and
-                isinstance(t.slice, ast.Constant) and
-                t.slice.value == 'exception'
-                for t in g.nodes[x].ast.targets) for x in region
-                if g.nodes[x].kind == 'stmt')
+            fstates = set()
+            for x in region:
+                for c in I.stmt_calls(g.nodes[x]):
+                    if I.is_handon(c):
+                        fstates.add(I.handon_state(prog, f, c))
+                    elif call_name(c).startswith('self.') and \
+                            call_name(c).count('.') == 1:
+                        hf = prog.resolve_call(f, c, comp)
+                        if hf is not None and hf.cls is not None:
+                            fstates |= {I.handon_state(prog, hf, c2)
+                                        for c2 in calls_in(hf.node)
+                                        if I.is_handon(c2)}
+            # the record: X['exception'] = .. / X.update({'exception': ..}),
+            # here or in an own helper method (order and coverage: R05.7)
+            rec = any(_records_any(prog, comp, f, g.nodes[x].ast)
+                      for x in region if g.nodes[x].kind == 'stmt')
             reraise = any(g.nodes[x].kind == 'stmt' and
                           isinstance(g.nodes[x].ast, ast.Raise)
                           for x in region)
-            okh = any(I.handon_state(prog, f, c) == failed for c in hands)
+            okh = failed in fstates
             rep.check(okh and rec and not reraise, rid, f, 'the handler '
                       'records the exception on the things and hands them on '
                       'as FAILED without re-raising', construct='work_cb:'
@@ -604,8 +643,9 @@ def _names(e):
 # R05.4b  one hand-on per task in the client output stager
 #
 def r05_4b(prog, rep, rid='R05.4b'):
-    rep.rule(rid, 'tmgr staging output hands every task on exactly once '
-             '(handler callee included)', minimum=1)
+    rep.rule(rid, 'tmgr staging output hands every task of the bulk on '
+             'exactly once (handler callee included; every task is sorted '
+             'into exactly one of the lists that are handed on)', minimum=4)
     to = prog.cls(*TOUT)
     f = prog.find_method(to, 'work')
     fh = prog.find_method(to, '_handle_task')
@@ -659,6 +699,113 @@ def r05_4b(prog, rep, rid='R05.4b'):
     else:
         rep.ok(rid, f, 'each task with output directives is handed on exactly '
                'once (by _handle_task or by work, not both)', f.loc(H.ast))
+    _r05_4b_sorting(prog, rep, rid, f, g, H)
+
+
+def _r05_4b_sorting(prog, rep, rid, f, g, H):
+    """In front of the per-task loop the worker sorts the tasks of the bulk
+    into local lists which are consumed afterwards - handed on as a bulk, or
+    iterated by the per-task loop (which hands each element on once, see
+    above).  Every path through one iteration of a sorting loop must put the
+    task into exactly one consumed list (or hand it on directly): none = the
+    task is dropped and never becomes final, two = its final state is
+    published twice."""
+    smap = I.stmt_node_map(g)
+    param = [p for p in f.params if p != 'self'][0]
+    consumed = {}
+    if isinstance(_strip_wrappers(H.ast.iter), ast.Name):
+        consumed[_strip_wrappers(H.ast.iter).id] = 'the per-task staging loop'
+    for c in calls_in(f.node):
+        th = I.handon_thing(c) if I.is_handon(c) else None
+        if isinstance(th, ast.Name) and th.id != param and \
+                not smap[id(c)].loops:
+            consumed.setdefault(th.id, '`%s`' % short(c, 50))
+    n_loops = 0
+    for F in g.nodes:
+        if F.kind != 'for' or F is H or F.loops or \
+                not isinstance(F.ast.target, ast.Name):
+            continue
+        it = _strip_wrappers(F.ast.iter)
+        if not (isinstance(it, ast.Name) and it.id == param):
+            continue
+        x = F.ast.target.id
+        body = g.loop_body[F.id]
+        puts = {}
+        for nid in body:
+            n = g.nodes[nid]
+            if n.kind != 'stmt':
+                continue
+            k = len([l for l in _collect_target(n.ast, {x}) if l in consumed])
+            k += len([c for c in calls_in(n.ast) if I.is_handon(c) and
+                      _names(I.handon_thing(c)) & {x}])
+            if k:
+                puts[nid] = k
+        if not puts:
+            continue
+        n_loops += 1
+        start, stop, stop_edge = loop_slice(g, F.id)
+
+        def transfer(node, edge, st, puts=puts):
+            if edge.label == 'exc':
+                return None
+            return min(2, st + puts.get(node.id, 0))
+        ex = Exploration(g, start, 0, transfer, stop=stop, stop_edge=stop_edge)
+        ends = [t for t in ex.terminals if t.node == F.id]
+        for want, what, hist in (
+                (0, 'into none of the lists (%s) which are handed on '
+                 'afterwards: the task is dropped and never reaches a final '
+                 'state', 'a task of the bulk on that path stays in '
+                 'TMGR_STAGING_OUTPUT forever'),
+                (2, 'into more than one of the lists (%s) which are handed on '
+                 'afterwards (or twice into one): the task is finalized more '
+                 'than once - its final state is published twice, or it is '
+                 'finalized in the bulk and again (after staging output it '
+                 'must not stage) by the per-task loop',
+                 'a task which comes back FAILED / CANCELED from the agent: '
+                 'two final state notifications, two callbacks')):
+            bad = [t for t in ends if t.state == want]
+            rep.check(not bad, rid, f, 'no path through the sorting loop puts '
+                      '`%s` into %s consumed lists' % (
+                          x, 'no' if want == 0 else 'two'),
+                      construct='tmgr-output:sorted=%d' % want,
+                      message='tmgr staging output: a path through one '
+                      'iteration of the loop which sorts the tasks of the bulk '
+                      '[%s] puts `%s` ' % (
+                          ' ; '.join(ex.literals(bad[0])) if bad else '', x) +
+                      what % ', '.join(sorted(consumed)),
+                      loc=f.loc(F.ast), history=hist,
+                      path=ex.literals(bad[0]) if bad else None)
+    # a list of sorted tasks is handed on once
+    for lst, how in sorted(consumed.items()):
+        if how.startswith('the per-task'):
+            continue
+
+        def count(node, edge, st, lst=lst):
+            if edge.label == 'exc':
+                return None
+            if node.kind == 'stmt':
+                for c in calls_in(node.ast):
+                    if I.is_handon(c) and isinstance(I.handon_thing(c),
+                                                     ast.Name) and \
+                            I.handon_thing(c).id == lst:
+                        st = min(2, st + 1)
+            return st
+        ex = Exploration(g, g.entry.id, 0, count)
+        twice = [t for t in ex.terminals if t.node == g.exit.id and
+                 t.state > 1]
+        rep.check(not twice, rid, f, 'the sorted list `%s` is handed on at '
+                  'most once' % lst, construct='tmgr-output:bulk-twice',
+                  message='tmgr staging output hands the list `%s` of sorted '
+                  'tasks on more than once on a path [%s]: every task in it '
+                  'is finalized twice' % (lst, ' ; '.join(
+                      ex.literals(twice[0])) if twice else ''),
+                  loc=f.loc(), history='any bulk with a task that needs no '
+                  'output staging: two final notifications for it')
+    if not n_loops:
+        raise AnalysisError('UNRECOGNISED-IDIOM %s: no loop over `%s` which '
+                            'sorts the tasks into the lists %s that are handed '
+                            'on afterwards' % (f.where, param,
+                                               sorted(consumed)))
 
 
 # ------------------------------------------------------------------------------
@@ -803,8 +950,12 @@ def r05_5(prog, rep, rid='R05.5'):
         # the super call passes the (possibly forced) flags on
         sup = [c for c in calls_in(f.node) if 'super()' in call_name(c) and
                call_name(c).endswith('.advance')]
+        bpos = [p for p in prog.find_method(prog.cls(*COMP), 'advance').params
+                if p != 'self']
         oks = len(sup) == 1 and all(
-            kwarg(sup[0], k) is not None and unparse(kwarg(sup[0], k)) == k
+            kwarg(sup[0], k, bpos.index(k) if k in bpos else None) is not None
+            and unparse(kwarg(sup[0], k, bpos.index(k) if k in bpos
+                              else None)) == k
             for k in ('publish', 'push', 'state', 'things'))
         rep.check(oks, rid, f, '%s.advance delegates with the adjusted flags'
                   % K.name, construct='%s:super' % K.name, message='%s.'
@@ -1119,9 +1270,11 @@ def _handoffs(prog, K, f, call, V, env=None, depth=0):
 
 
 def _is_exc_store(t, V):
+    # V['exception']: the store is to the thing itself, not to one element of
+    # a bulk (`things[0]['exception']`)
     return isinstance(t, ast.Subscript) and \
         isinstance(t.slice, ast.Constant) and t.slice.value == 'exception' \
-        and root_name(t) in V
+        and isinstance(t.value, ast.Name) and t.value.id in V
 
 
 def _records(prog, K, f, a, V, depth=0):
@@ -1150,7 +1303,53 @@ def _records(prog, K, f, a, V, depth=0):
             if isinstance(s, ast.stmt) and _records(prog, K, callee, s, Vc,
                                                     depth + 1):
                 return True
+            # element by element: `for x in <bulk>: x['exception'] = ..`
+            if isinstance(s, ast.For) and isinstance(s.target, ast.Name) and \
+                    isinstance(_strip_wrappers(s.iter), ast.Name) and \
+                    _strip_wrappers(s.iter).id in Vc and any(
+                        _records(prog, K, callee, b, {s.target.id}, depth + 1)
+                        for b in s.body):
+                return True
     return False
+
+
+def _helper_ordered(prog, K, h, Vc, failed, depth=0):
+    """in the helper method h every FAILED hand-on of its parameter(s) Vc is
+    preceded, on every path, by the record of the exception on them"""
+    g = cfg_of(h)
+    every = {n.id for n in g.nodes}
+    recs = {n.id for n in g.nodes if n.kind == 'stmt' and n.ast is not None
+            and _records(prog, K, h, n.ast, Vc)}
+    rloops = set()
+    for v in Vc:
+        rloops |= _record_loops(prog, K, h, g, every, {v})
+    fails = {}
+    for n in g.nodes:
+        if n.kind != 'stmt' or n.ast is None:
+            continue
+        for c in calls_in(n.ast):
+            if _handoffs(prog, K, h, c, Vc) == {failed}:
+                fails[n.id] = c
+
+    def transfer(node, edge, st):
+        if edge.label == 'exc':
+            return None
+        rec, bad = st
+        if node.id in fails and node.id in recs and \
+                not _is_base_advance(fails[node.id]):
+            r = _callee_of(prog, K, h, fails[node.id], Vc)
+            if depth >= 2 or r is None or not _helper_ordered(
+                    prog, K, r[0], r[1], failed, depth + 1):
+                bad = bad or not rec
+            rec = True
+            return (rec, bad)
+        if node.id in recs or (node.id in rloops and edge.label == 'done'):
+            rec = True
+        if node.id in fails and not rec:
+            bad = True
+        return (rec, bad)
+    ex = Exploration(g, g.entry.id, (False, False), transfer)
+    return not any(t.state[1] for t in ex.terminals)
 
 
 def _collect_target(a, V):
@@ -1334,17 +1533,19 @@ def _catch_all(h):
                for t in ts)
 
 
-def r05_7(prog, rep, rid='R05.7'):
-    rep.rule(rid, 'an `except` handler that hands the thing of the iteration '
-             'on does so as FAILED on every path that does not re-raise (a '
-             'hand-on to a non-final state only where the task\'s own outcome '
-             'is already not DONE), with the exception recorded first',
-             minimum=16)
+def _failure_handlers(prog):
+    """[(K, f, g, h, tv, region, ev, parts)]: the catch-all handlers of the
+    task components which hand the thing they are about on, and the handler
+    around the worker call of BaseComponent.work_cb (which fails the bulk
+    `things` it was given; parts 'c': only the order record -> hand-on is
+    judged there, a stateless bulk is not failed by design and R05.3 decides
+    the rest)"""
+    cached = getattr(prog, '_c05_failure_handlers', None)
+    if cached is not None:
+        return cached
     failed = prog.const('states.py', 'FAILED')
-    done = prog.const('states.py', 'DONE')
-    final = set(prog.const('states.py', 'FINAL'))
     comp = prog.cls(*COMP)
-    n_handlers = 0
+    out = []
     for K, f in sorted(all_methods(prog), key=lambda x: x[1].where):
         if comp not in prog.mro(K) or f.module.rel == 'utils/component.py' \
                 or f.module.rel.startswith('pmgr/'):     # pilots, not tasks
@@ -1361,26 +1562,146 @@ def r05_7(prog, rep, rid='R05.7'):
                 region, ev = handler_events(prog, K, f, g, h, tv, failed)
                 if not ev:
                     continue
-                n_handlers += 1
-                rep.saw(f)
-                _check_handler(prog, rep, rid, K, f, g, h, tv, region, ev,
-                               failed, done, final)
+                out.append((K, f, g, h, tv, region, ev, 'abc'))
                 break
+    # BaseComponent.work_cb: the handler(s) of the worker call
+    f = prog.find_method(comp, 'work_cb')
+    g = cfg_of(f)
+    for h in g.nodes:
+        if h.kind != 'handler' or not _catch_all(h.ast):
+            continue
+        # the bulk this handler fails: a name handed to a call in the handler
+        # (the hand-on itself or a helper method which does it)
+        tvs = []
+        for nid in sorted(_handler_region(g, h)):
+            n = g.nodes[nid]
+            if n.kind != 'stmt':
+                continue
+            for c in calls_in(n.ast):
+                for x in list(c.args) + [k.value for k in c.keywords]:
+                    if isinstance(x, ast.Name) and x.id not in tvs and \
+                            x.id not in ('self', h.ast.name):
+                        tvs.append(x.id)
+        for tv in tvs:
+            try:
+                region, ev = handler_events(prog, comp, f, g, h, tv, failed)
+            except AnalysisError:
+                continue
+            if any(kind == 'failed' and any(
+                    _carries(x, {tv}) for x in list(call.args) +
+                    [k.value for k in call.keywords])
+                    for evs in ev.values() for kind, H, call in evs):
+                out.append((comp, f, g, h, tv, region, ev, 'c'))
+    try:
+        prog._c05_failure_handlers = out
+    except AttributeError:
+        pass
+    return out
+
+
+def r05_7(prog, rep, rid='R05.7'):
+    rep.rule(rid, 'an `except` handler that hands the thing of the iteration '
+             'on does so as FAILED on every path that does not re-raise (a '
+             'hand-on to a non-final state only where the task\'s own outcome '
+             'is already not DONE), with the exception recorded first (also '
+             'the handler of the worker call in BaseComponent.work_cb)',
+             minimum=17)
+    failed = prog.const('states.py', 'FAILED')
+    done = prog.const('states.py', 'DONE')
+    final = set(prog.const('states.py', 'FINAL'))
+    n_handlers = 0
+    for K, f, g, h, tv, region, ev, parts in _failure_handlers(prog):
+        n_handlers += 1
+        rep.saw(f)
+        _check_handler(prog, rep, rid, K, f, g, h, tv, region, ev,
+                       failed, done, final, parts)
     rep.stat('failure_handlers', n_handlers)
 
 
+def _htype(h):
+    return unparse(h.ast.type) if h.ast.type else 'bare'
+
+
+def _each_loops(g, region, V, hit):
+    """{loop head id: element name} of the `for x in <V>` loops inside the
+    handler in which every path through one iteration passes a node of
+    hit(x): when such a loop is left through its head, the effect has happened
+    for every element of V"""
+    out = {}
+    for nid in region:
+        L = g.nodes[nid]
+        if L.kind != 'for' or not isinstance(L.ast.target, ast.Name):
+            continue
+        it = _strip_wrappers(L.ast.iter)
+        if not (isinstance(it, ast.Name) and it.id in V):
+            continue
+        x = L.ast.target.id
+        hits = hit(x) & g.loop_body[L.id]
+        if not hits:
+            continue
+        start, stop, stop_edge = loop_slice(g, L.id)
+        if start is None:
+            continue
+
+        def transfer(node, edge, st, hits=hits):
+            if edge.label == 'exc':
+                return None
+            return st or node.id in hits
+        ex = Exploration(g, start, False, transfer, stop=stop,
+                         stop_edge=stop_edge)
+        ends = [t for t in ex.terminals if t.node == L.id]
+        if ends and all(t.state for t in ends):
+            out[L.id] = x
+    return out
+
+
+def _elem_loops(g, region, V):
+    """{loop head id: element name} of all `for x in <V>` loops in the handler"""
+    out = {}
+    for nid in region:
+        L = g.nodes[nid]
+        if L.kind == 'for' and isinstance(L.ast.target, ast.Name):
+            it = _strip_wrappers(L.ast.iter)
+            if isinstance(it, ast.Name) and it.id in V:
+                out[L.id] = L.ast.target.id
+    return out
+
+
+def _record_loops(prog, K, f, g, region, V):
+    """heads of the loops over V which record the exception on every element"""
+    def hit(x):
+        return {m for m in region if g.nodes[m].kind == 'stmt' and
+                _records(prog, K, f, g.nodes[m].ast, {x})}
+    return set(_each_loops(g, region, V, hit))
+
+
+def _has_record(prog, K, f, g, region, V):
+    return any(g.nodes[nid].kind == 'stmt' and
+               _records(prog, K, f, g.nodes[nid].ast, V) for nid in region) \
+        or bool(_record_loops(prog, K, f, g, region, V))
+
+
 def _check_handler(prog, rep, rid, K, f, g, h, tv, region, ev, failed, done,
-                   final):
+                   final, parts='abc'):
     V = {tv}
-    label = '%s handler(%s)' % (f.qual, unparse(h.ast.type) if h.ast.type
-                                else 'bare')
+    label = '%s handler(%s)' % (f.qual, _htype(h))
     rec_nodes = {nid for nid in region if g.nodes[nid].kind == 'stmt' and
                  _records(prog, K, f, g.nodes[nid].ast, V)}
+    rec_loops = _record_loops(prog, K, f, g, region, V)
+    # a helper method which records and fails: the order inside the helper
+    late_rec = set()
+    for nid in rec_nodes:
+        for kind, H, call in ev.get(nid, ()):
+            if kind == 'failed' and not _is_base_advance(call):
+                r = _callee_of(prog, K, f, call, V)
+                if r is not None and not _helper_ordered(prog, K, r[0], r[1],
+                                                         failed):
+                    late_rec.add(nid)
     # (a) hand-ons to something else than FAILED
     soft = {}
     for nid, evs in ev.items():
         for kind, H, call in evs:
-            if kind != 'other':
+            if kind != 'other' or 'a' not in parts:
                 continue
             at = nid
             nonfinal = all(s is not None and s not in final for s in H)
@@ -1405,14 +1726,50 @@ def _check_handler(prog, rep, rid, K, f, g, h, tv, region, ev, failed, done,
                       'file to LINK/COPY/MOVE that does not exist): the '
                       'application sees DONE, exception None')
 
-    # (b), (c): all paths
+    # (b), (c): all paths.  The handler may deal with a bulk V element by
+    # element (`for x in V: ...`): a record / a FAILED hand-on of x counts for
+    # x inside the iteration, and for V once a loop which does it for every
+    # element is left through its head.
+    elems = _elem_loops(g, region, V)
+    enames = set(elems.values())
+    erec_nodes = {nid for nid in region if enames and
+                  g.nodes[nid].kind == 'stmt' and
+                  _records(prog, K, f, g.nodes[nid].ast, enames)}
+
+    def of_elem(call):
+        args = list(call.args) + [k.value for k in call.keywords]
+        return bool(enames) and any(_carries(a, enames) for a in args) and \
+            not any(_carries(a, V) for a in args)
+    fail_nodes = {nid for nid, evs in ev.items() if any(
+        kind in ('failed', 'failed-later') and of_elem(call)
+        for kind, H, call in evs)}
+    fail_loops = _each_loops(g, region, V, lambda x: set(fail_nodes))
+
     def transfer(node, edge, st):
         if edge.label == 'exc':
             return None
-        fl, rec, unrec, later = st
-        if node.id in rec_nodes:
+        fl, rec, unrec, later, erec = st
+        if node.id in elems:
+            if edge.label == 'iter':
+                erec = False
+            elif edge.label == 'done':
+                if node.id in rec_loops:
+                    rec = True
+                if node.id in fail_loops:
+                    fl = True
+            return (fl, rec, unrec, later, erec)
+        if node.id in rec_nodes and node.id not in late_rec:
             rec = True
+        if node.id in erec_nodes:
+            erec = True
         for kind, H, call in ev.get(node.id, ()):
+            if of_elem(call):
+                # one element of the bulk: (b) is judged when its loop ends
+                if kind == 'failed' and not (rec or erec):
+                    unrec = True
+                elif kind == 'failed-later':
+                    later = True
+                continue
             if kind == 'failed':
                 if not rec:
                     unrec = True
@@ -1424,45 +1781,108 @@ def _check_handler(prog, rep, rid, K, f, g, h, tv, region, ev, failed, done,
                 fl = True
             elif fl is False:
                 fl = 'handed-on'        # judged by (a)
-        return (fl, rec, unrec, later)
+        if node.id in late_rec:
+            rec = True
+        return (fl, rec, unrec, later, erec)
 
     def stop(nid):
         return nid in (g.exit.id, g.raise_.id) or (
             g.nodes[nid].ast is not None and nid not in region)
-    ex = Exploration(g, h.id, (False, False, False, False), transfer,
+    ex = Exploration(g, h.id, (False, False, False, False, False), transfer,
                      stop=stop,
                      stop_edge=lambda e: e.back and e.dst not in region)
     lost = [t for t in ex.terminals if t.node != g.raise_.id and
             t.state[0] is False]
-    rep.check(not lost, rid, f, '%s: every path fails `%s`' % (label, tv),
-              construct='%s:%s:all-paths-failed' % (
-                  unparse(h.ast.type) if h.ast.type else 'bare', tv),
-              message='%s: a path through the error handler leaves without '
-              'handing `%s` on as FAILED [%s]: the task whose handling raised '
-              'is dropped here and never reaches a final state' % (
-                  label, tv, ' ; '.join(ex.literals(lost[0])) if lost else ''),
-              loc=f.loc(h.ast), path=ex.literals(lost[0]) if lost else None,
-              history='the guarded work raises for one task on that path: '
-              'the task stays in its current state forever, wait_tasks() '
-              'never returns')
+    if 'b' in parts:
+        rep.check(not lost, rid, f, '%s: every path fails `%s`' % (label, tv),
+                  construct='%s:%s:all-paths-failed' % (_htype(h), tv),
+                  message='%s: a path through the error handler leaves '
+                  'without handing `%s` on as FAILED [%s]: the task whose '
+                  'handling raised is dropped here and never reaches a final '
+                  'state' % (label, tv, ' ; '.join(ex.literals(lost[0]))
+                             if lost else ''),
+                  loc=f.loc(h.ast), path=ex.literals(lost[0]) if lost else None,
+                  history='the guarded work raises for one task on that path: '
+                  'the task stays in its current state forever, wait_tasks() '
+                  'never returns')
     unrec = [t for t in ex.terminals if t.node != g.raise_.id and (
-        t.state[2] or (t.state[3] and not t.state[1]))]
-    if rec_nodes:
+        t.state[2] or (t.state[3] and not (t.state[1] or t.state[4])))]
+    if rec_nodes or rec_loops or erec_nodes:
         rep.check(not unrec, rid, f, '%s: the exception is recorded on `%s` '
                   'before it is failed, on every path' % (label, tv),
-                  construct='%s:%s:recorded' % (
-                      unparse(h.ast.type) if h.ast.type else 'bare', tv),
+                  construct='%s:%s:recorded' % (_htype(h), tv),
                   message='%s: a path through the error handler hands `%s` on '
                   'as FAILED before / without recording the exception on it '
-                  '[%s]: the application sees FAILED without explanation'
+                  '[%s]: the state update is published (the full thing is '
+                  'serialised) at the hand-on and FAILED is final, so nothing '
+                  'recorded later is ever sent: the application sees FAILED '
+                  'without explanation'
                   % (label, tv, ' ; '.join(ex.literals(unrec[0]))
                      if unrec else ''), loc=f.loc(h.ast),
                   history='the guarded work raises on that path: '
                   'task.exception is None')
     else:
         rep.info(rid, f, '%s fails `%s` without recording the exception on it '
-                 '(no path records it; not armed)' % (label, tv),
+                 '(no path records it: judged by R05.10)' % (label, tv),
                  f.loc(h.ast))
+
+
+# ------------------------------------------------------------------------------
+# R05.10  a handler that fails its thing explains why
+#
+# "FAILED if ... any step handling the task raised an error (with exit code /
+# exception recorded on the task)": a catch-all handler which hands the thing
+# it is about on as FAILED (directly, through a helper, or by collecting it for
+# a FAILED hand-on after the loop) must record the exception on it somewhere -
+# `t['exception'] = ...`, `t.update({'exception': ...})`, in a helper method,
+# or element by element in a loop over the bulk.  (R05.7 (c) decides the
+# order of record and hand-on where a record exists.)
+#
+def r05_10(prog, rep, rid='R05.10'):
+    rep.rule(rid, 'a catch-all `except` handler which hands the thing it is '
+             'about on as FAILED records the exception on it '
+             "(thing['exception'])", minimum=10)
+    for K, f, g, h, tv, region, ev, parts in _failure_handlers(prog):
+        fails = [call for evs in ev.values() for kind, H, call in evs
+                 if kind in ('failed', 'failed-later')]
+        if not fails:
+            continue
+        rep.saw(f)
+        V = {tv}
+        enames = set(_elem_loops(g, region, V).values())
+        rec = _has_record(prog, K, f, g, region, V) or (bool(enames) and any(
+            g.nodes[nid].kind == 'stmt' and
+            _records(prog, K, f, g.nodes[nid].ast, enames) for nid in region))
+        label = '%s handler(%s)' % (f.qual, _htype(h))
+        if not rec:
+            # a helper of the handler stores an exception somewhere, in a form
+            # that is not followed here (a loop over the bulk inside it)
+            for nid in region:
+                n = g.nodes[nid]
+                for c in (calls_in(n.ast) if n.kind == 'stmt' else ()):
+                    r = _callee_of(prog, K, f, c, V)
+                    if r is not None and any(
+                            _records_any(prog, K, r[0], st)
+                            for st in r[0].node.body):
+                        raise AnalysisError(
+                            'UNRECOGNISED-IDIOM %s: the helper `%s` of the '
+                            'error handler records an exception, but not in a '
+                            'form that is followed to `%s`; decided on the '
+                            'view with the helper inlined'
+                            % (f.where, short(c, 50), tv))
+        rep.check(rec, rid, f, '%s records the exception on the thing it '
+                  'fails' % label,
+                  construct='handler(%s):fails-without-exception' % _htype(h),
+                  message='%s: the error handler hands `%s` on as FAILED (`%s`) '
+                  "but no statement of the handler records the exception on it "
+                  "(no store to <thing>['exception'], directly or in a helper): "
+                  'the task ends FAILED with exception None and exit code '
+                  'None - the application cannot tell why it failed (the '
+                  'sibling handlers record repr(e) and the trace before '
+                  'they fail the task)' % (label, tv, short(fails[0], 60)),
+                  loc=f.loc(h.ast),
+                  history='the work guarded by this handler raises for a '
+                  'task: Task.state is FAILED, Task.exception is None')
 
 
 # ------------------------------------------------------------------------------
@@ -2277,6 +2697,401 @@ def r05_9(prog, rep, rid='R05.9'):
 
 
 # ------------------------------------------------------------------------------
+# R05.11  raptor: exit code -> target state (R20.4 re-evaluated)
+#
+# `Master._result_cb` is the second "exit code -> target_state" mechanism of
+# this property (the first, Popen._check_running, is R05.2): DONE only for an
+# exit code which is 0, FAILED for every other and for a missing one, and the
+# completed requests handed on exactly once towards output staging.  The C20
+# module decides this by evaluating the method for the codes 0, 1, -9 and None;
+# the same obligations are part of "DONE only if the task's process exited
+# with code 0".
+#
+def r05_11(prog, rep, rid='R05.11'):
+    from . import c20
+    err = None
+    try:
+        c20.r20_4(prog, rep, rid=rid)
+    except AnalysisError as e:
+        err = e
+    rep.rule(rid, 'raptor Master._result_cb: exit code 0 -> target state '
+             'DONE, any other or a missing exit code -> FAILED; completed '
+             'requests are handed on exactly once, towards agent output '
+             'staging (R20.4 re-evaluated)', minimum=6)
+    if err:
+        raise err
+
+
+# ------------------------------------------------------------------------------
+# R05.12  a FAILED / CANCELED of an agent component reaches the client
+#         (part of R16.3 re-evaluated)
+#
+# Agent components fail / cancel a task with `self.advance(task, rps.FAILED)`:
+# published only, never pushed (R05.5).  The update leaves the pilot only when
+# its message carries a true `fwd` item - `crosswire_pubsub` drops the others.
+# Necessary: BaseComponent.advance publishes the caller's flag, and
+# AgentComponent.advance defaults it to true and passes it on unchanged.  Those
+# three obligations of R16.3 are evaluated here; the others of that rule
+# (client default, cancel requests, typed messages) do not bear on this
+# property and are ignored.
+#
+_R05_12_CONSTRUCTS = ('update:fwd', 'AgentComponent.advance(fwd=)',
+                      'AgentComponent.advance:pass')
+
+
+class _AllSeen(Exception):
+    pass
+
+
+class _OnlyConstructs:
+    """a Report that keeps only the obligations with one of the named
+    constructs (everything else a re-evaluated rule says is dropped)"""
+
+    def __init__(self, rep, constructs):
+        self._rep = rep
+        self._constructs = constructs
+        self.seen = set()
+
+    def __getattr__(self, name):
+        return getattr(self._rep, name)
+
+    def rule(self, rid, text, minimum=1):
+        pass
+
+    def check(self, cond, rid, where, what, construct=None, **kw):
+        if construct in self._constructs:
+            self.seen.add(construct)
+            self._rep.check(cond, rid, where, what, construct=construct, **kw)
+            if self.seen == set(self._constructs):
+                raise _AllSeen()          # the rest of the rule is not ours
+        return bool(cond)
+
+    def ok(self, *a, **kw):
+        pass
+
+    def bad(self, *a, **kw):
+        pass
+
+    def info(self, *a, **kw):
+        pass
+
+
+def r05_12(prog, rep, rid='R05.12'):
+    from . import c16
+    rep.rule(rid, 'a state update of an agent component (FAILED / CANCELED '
+             'are published only) leaves the pilot: BaseComponent.advance '
+             "publishes the caller's fwd flag, AgentComponent.advance defaults "
+             'it to true and passes it on unchanged (R16.3, these three '
+             'obligations, re-evaluated)', minimum=3)
+    only = _OnlyConstructs(rep, _R05_12_CONSTRUCTS)
+    try:
+        c16.r16_3(prog, only, rid=rid)
+    except _AllSeen:
+        return
+    if only.seen != set(_R05_12_CONSTRUCTS):
+        raise AnalysisError('R05.12: R16.3 did not evaluate the obligations %s'
+                            % sorted(set(_R05_12_CONSTRUCTS) - only.seen))
+
+
+# ------------------------------------------------------------------------------
+# R05.13  the replay on the client ends with the state that was notified
+#
+# `_update_tasks` asks `_task_state_progress(uid, current, target)` for the
+# states to replay; the answer is empty or ENDS with the state the task has to
+# reach.  FAILED / CANCELED are published once, so the Task object becomes final
+# only if that last element is applied.  Between the progress call and the
+# replay loop the list may be re-bound or changed in place ("don't replay
+# intermediate states"): every such statement which is reached for a final
+# target must map a list that ends with the target to a non-empty list that
+# ends with the target.  Decided by value: the statement is evaluated on lists
+# of 1..4 distinct states.
+#
+class _NoValue(Exception):
+    pass
+
+
+def _ev_list(e, env):
+    """value of an expression over lists / ints, names from env"""
+    if isinstance(e, ast.Name):
+        if e.id in env:
+            return env[e.id]
+        raise _NoValue(unparse(e))
+    if isinstance(e, ast.Constant) and (e.value is None or (
+            isinstance(e.value, int) and not isinstance(e.value, bool))):
+        return e.value
+    if isinstance(e, ast.UnaryOp) and isinstance(e.op, ast.USub):
+        v = _ev_list(e.operand, env)
+        if isinstance(v, int):
+            return -v
+    if isinstance(e, ast.BinOp) and isinstance(e.op, (ast.Add, ast.Sub)):
+        a, b = _ev_list(e.left, env), _ev_list(e.right, env)
+        if isinstance(a, int) and isinstance(b, int):
+            return a + b if isinstance(e.op, ast.Add) else a - b
+        if isinstance(a, list) and isinstance(b, list) and \
+                isinstance(e.op, ast.Add):
+            return a + b
+    if isinstance(e, (ast.List, ast.Tuple)):
+        out = []
+        for x in e.elts:
+            if isinstance(x, ast.Starred):
+                v = _ev_list(x.value, env)
+                if not isinstance(v, list):
+                    raise _NoValue(unparse(e))
+                out += v
+            else:
+                out.append(_ev_list(x, env))
+        return out
+    if isinstance(e, ast.Call) and not e.keywords:
+        fn = dotted(e.func)
+        if fn in ('list', 'tuple', 'ru.as_list') and not e.args:
+            return []
+        if len(e.args) == 1 and fn in ('len', 'list', 'tuple', 'reversed',
+                                       'ru.as_list'):
+            v = _ev_list(e.args[0], env)
+            if isinstance(v, list):
+                return len(v) if fn == 'len' else \
+                    v[::-1] if fn == 'reversed' else list(v)
+        if isinstance(e.func, ast.Attribute) and e.func.attr == 'copy' and \
+                not e.args:
+            v = _ev_list(e.func.value, env)
+            if isinstance(v, list):
+                return list(v)
+    if isinstance(e, ast.Subscript):
+        v = _ev_list(e.value, env)
+        if isinstance(v, list):
+            if isinstance(e.slice, ast.Slice):
+                lo, up, st = [None if x is None else _ev_list(x, env)
+                              for x in (e.slice.lower, e.slice.upper,
+                                        e.slice.step)]
+                if all(x is None or isinstance(x, int) for x in (lo, up, st)) \
+                        and st != 0:
+                    return v[lo:up:st]
+            else:
+                i = _ev_list(e.slice, env)
+                if isinstance(i, int) and -len(v) <= i < len(v):
+                    return v[i]
+    raise _NoValue(unparse(e))
+
+
+def _in_place(a, name, env):
+    """new value of the list `name` after statement `a`, None if `a` does not
+    change it in place; _NoValue if it does in a way that is not evaluated"""
+    def is_name(x):
+        return isinstance(x, ast.Name) and x.id == name
+    cur = env[name]
+    if isinstance(a, ast.Delete):
+        for t in a.targets:
+            if isinstance(t, ast.Subscript) and is_name(t.value):
+                new = list(cur)
+                probe = ast.Subscript(value=t.value, slice=t.slice,
+                                      ctx=ast.Load())
+                gone = _ev_list(probe, env)
+                if isinstance(t.slice, ast.Slice):
+                    keep = [x for x in new if x not in gone]
+                else:
+                    keep = [x for x in new if x != gone]
+                return keep
+        return None
+    if isinstance(a, ast.Assign):
+        for t in a.targets:
+            if isinstance(t, ast.Subscript) and is_name(t.value):
+                if isinstance(t.slice, ast.Slice) and t.slice.lower is None \
+                        and t.slice.upper is None and t.slice.step is None:
+                    v = _ev_list(a.value, env)
+                    if isinstance(v, list):
+                        return v
+                raise _NoValue(unparse(a))
+        return None
+    if isinstance(a, ast.AugAssign) and is_name(a.target):
+        v = _ev_list(a.value, env)
+        if isinstance(a.op, ast.Add) and isinstance(v, list):
+            return cur + v
+        raise _NoValue(unparse(a))
+    for c in calls_in(a) if isinstance(a, ast.stmt) else []:
+        if isinstance(c.func, ast.Attribute) and is_name(c.func.value):
+            m = c.func.attr
+            if m in ('copy', 'index', 'count'):
+                continue
+            new = list(cur)
+            if m == 'pop' and len(c.args) <= 1:
+                i = _ev_list(c.args[0], env) if c.args else -1
+                if isinstance(i, int) and -len(new) <= i < len(new):
+                    new.pop(i)
+                    return new
+            elif m == 'reverse' and not c.args:
+                return new[::-1]
+            elif m == 'clear' and not c.args:
+                return []
+            elif m == 'append' and len(c.args) == 1:
+                return new + [_ev_list(c.args[0], env)]
+            raise _NoValue(unparse(c))
+    return None
+
+
+def r05_13(prog, rep, rid='R05.13'):
+    from . import c06
+    from ..flow import reaching_defs, const_compare
+    rep.rule(rid, 'the states TaskManager._update_tasks replays for a '
+             'notification end with the state _task_state_progress answered '
+             'last: no statement between the progress call and the replay '
+             'loop drops the last element of the list for a final target',
+             minimum=1)
+    tm, f, g, smap, H = c06.batch_info(prog)
+    rep.saw(f)
+    final = set(prog.const('states.py', 'FINAL'))
+    pcs = [c for c in calls_in(f.node)
+           if call_name(c).endswith('_task_state_progress')]
+    if len(pcs) != 1:
+        raise AnalysisError('UNRECOGNISED-IDIOM %s: _task_state_progress call'
+                            % f.where)
+    pn = smap[id(pcs[0])]
+    asg = pn.ast
+    if not (isinstance(asg, ast.Assign) and len(asg.targets) == 1 and
+            isinstance(asg.targets[0], (ast.Tuple, ast.List)) and
+            len(asg.targets[0].elts) == 2 and
+            all(isinstance(x, ast.Name) for x in asg.targets[0].elts)):
+        raise AnalysisError('UNRECOGNISED-IDIOM %s: result of '
+                            '_task_state_progress' % f.where)
+    tname, passed = [x.id for x in asg.targets[0].elts]
+    # the replay loop: the loop in the batch loop which applies its element
+    # through Task._update
+    body = g.loop_body[H.id]
+    rls = [n for n in g.nodes if n.kind == 'for' and n.id in body and any(
+        isinstance(c.func, ast.Attribute) and c.func.attr == '_update'
+        for c in calls_in(n.ast))]
+    rls = [n for n in rls if not any(m is not n and m.id in g.loop_body[n.id]
+                                     for m in rls)] or rls
+    if len(rls) != 1:
+        raise AnalysisError('UNRECOGNISED-IDIOM %s: replay loop' % f.where)
+    R = rls[0]
+    if passed not in _names(R.ast.iter):
+        raise AnalysisError('UNRECOGNISED-IDIOM %s: the replay loop iterates '
+                            '`%s`, not the list answered by '
+                            '_task_state_progress' % (f.where,
+                                                      short(R.ast.iter, 40)))
+    # names which hold the target state: the first result of the progress
+    # call and what was given to it as target
+    tnames = {tname}
+    if len(pcs[0].args) == 3 and isinstance(pcs[0].args[2], ast.Name):
+        tnames.add(pcs[0].args[2].id)
+    ttests = []
+    for m in g.nodes:
+        if m.kind != 'test' or m.ast is None:
+            continue
+        cc = const_compare(prog, f.module, m.ast, f.cls)
+        if cc is not None and cc[0] in tnames:
+            ttests.append((m.id, cc[1], cc[2]))
+    start = loop_slice(g, H.id)[0]
+
+    reached = {}
+    for st in final:
+        skip = [(tid, 'F' if (st in vals) == (op == 'in') else 'T')
+                for tid, op, vals in ttests]
+        reached[st] = g.reachable(start, skip_edges=skip)
+
+    def finals_reaching(nid):
+        """final target states for which the node is reached"""
+        return {st for st in final if nid in reached[st]}
+
+    def local_values(node, st, L, names):
+        """[{name: value}]: the values the other locals the statement reads
+        can have when it is reached for the final target st (every reaching
+        definition which is itself reached for st; evaluated over the list)"""
+        base = {passed: list(L), **{t: L[-1] for t in tnames}}
+        envs = [base]
+        for x in sorted(names):
+            defs = [(dn, dv) for dn, dv in reaching_defs(g, x, node.id)
+                    if dn.id in reached[st]]
+            if not defs:
+                continue                    # a global / builtin / parameter
+            vals = []
+            for dn, dv in defs:
+                if dv is None:
+                    raise _NoValue(x)
+                v = _ev_list(dv, base)
+                if v not in vals:
+                    vals.append(v)
+            envs = [dict(e, **{x: v}) for e in envs for v in vals][:64]
+        return envs
+    between = (g.reachable(pn.id, no_back=True) - {pn.id}) & body
+    between = {nid for nid in between
+               if R.id in g.reachable(nid, no_back=True)} - g.loop_body[R.id]
+
+    def judge(what, node, fn, reads):
+        """fn(env) -> new value of the list; evaluated for lists of 1..4
+        states which end with the target"""
+        reach = finals_reaching(node.id)
+        if not reach:
+            rep.ok(rid, f, '%s is not reached for a final target' % what,
+                   f.loc(node.ast))
+            return
+        names = {x.id for x in ast.walk(reads) if isinstance(x, ast.Name) and
+                 isinstance(x.ctx, ast.Load)} - {passed} - tnames
+        worst = None
+        for st in sorted(reach):
+            for n in (1, 2, 3, 4):
+                L = ['<state %d>' % (i + 1) for i in range(n - 1)] + \
+                    ['<target>']
+                try:
+                    vs = [fn(env) for env in local_values(node, st, L, names)]
+                except _NoValue as e:
+                    raise AnalysisError('UNRECOGNISED-IDIOM %s: %s changes '
+                                        'the list of states to replay in a '
+                                        'way that is not evaluated here (`%s`)'
+                                        % (f.where, what, e))
+                for v in vs:
+                    if v is None:
+                        return
+                    if not isinstance(v, list):
+                        raise AnalysisError('UNRECOGNISED-IDIOM %s: %s does '
+                                            'not yield a list' % (f.where,
+                                                                  what))
+                    if not v or v[-1] != L[-1]:
+                        worst = worst or (L, v)
+        rep.check(worst is None, rid, f, '%s keeps the last state of the '
+                  'replay' % what, construct='replay:keeps-target',
+                  message='TaskManager._update_tasks: %s, reached for the '
+                  'target state(s) %s, turns the answer %s of '
+                  '_task_state_progress into %s: the notified state itself is '
+                  'not among the states applied to the Task object.  FAILED / '
+                  'CANCELED are published once, so the task never becomes '
+                  'final for the application (wait_tasks() hangs, callbacks '
+                  'for the final state never fire)'
+                  % (what, sorted(reach), worst[0] if worst else '',
+                     worst[1] if worst else ''), loc=f.loc(node.ast),
+                  history='a task that is still in TMGR_STAGING_INPUT_PENDING '
+                  'is canceled (or fails early): the notification CANCELED '
+                  'arrives while the Task object is more than one state away '
+                  'from final; Task.state stays non-final')
+    for nid in sorted(between):
+        n = g.nodes[nid]
+        if n.kind != 'stmt' or n.ast is None:
+            continue
+        a = n.ast
+        if isinstance(a, ast.Assign) and any(
+                passed in stores_in_target(t) and isinstance(t, ast.Name)
+                for t in a.targets):
+            if isinstance(a.value, (ast.List, ast.Tuple)) and \
+                    not a.value.elts or (
+                        isinstance(a.value, ast.Call) and not a.value.args
+                        and dotted(a.value.func) in ('list', 'tuple')):
+                continue              # nothing is replayed by decision: R05.9
+            judge('`%s`' % short(a, 50), n,
+                  lambda env, a=a: _ev_list(a.value, env), a.value)
+        elif isinstance(a, ast.Assign) and any(
+                passed in stores_in_target(t) for t in a.targets):
+            raise AnalysisError('UNRECOGNISED-IDIOM %s: `%s` re-binds the '
+                                'list of states to replay' % (f.where,
+                                                              short(a, 50)))
+        elif isinstance(a, (ast.Assign, ast.AugAssign, ast.Delete, ast.Expr)) \
+                and passed in _names(a):
+            judge('`%s`' % short(a, 50), n,
+                  lambda env, a=a: _in_place(a, passed, env), a)
+    judge('the iterable `%s` of the replay loop' % short(R.ast.iter, 40), R,
+          lambda env: _ev_list(R.ast.iter, env), R.ast.iter)
+
+
+# ------------------------------------------------------------------------------
 #
 def run(prog, rep, tier):
     rep.decided = ('route table: every pushing hand-on to a non-final state '
@@ -2297,8 +3112,18 @@ def run(prog, rep, tier):
         'notification are those answered by the progress function (the '
         'arbiter between contradictory final states) and no other caller of '
         'Task._update changes a task that is already final (R05.9 = R06.5 + '
-        'R06.6 re-evaluated).  Exactly-once '
-        'finishing in the executor is C07, Master._result_cb is R20.4.')
+        'R06.6 re-evaluated), and the replayed list keeps the notified '
+        'state as its last element for every final target; a catch-all '
+        'handler that fails its thing records the exception on it (three '
+        'handlers of the unchanged tree do not: R05.10); the worker handler '
+        'of BaseComponent.work_cb records the exception on every thing '
+        'before the FAILED hand-on; the client output stager sorts every '
+        'task of a bulk into exactly one of the lists it hands on; raptor '
+        'Master._result_cb maps exit code 0 to DONE and every other or '
+        'missing code to FAILED (R05.11 = R20.4 re-evaluated); state updates '
+        'of agent components carry fwd=True by default (R05.12 = the three '
+        'obligations of R16.3 about AgentComponent / BaseComponent.advance).  '
+        'Exactly-once finishing in the executor is C07.')
     rep.undecided = ('composition of the ten components under arbitrary '
         'message delivery orders; liveness of the pipeline as a whole.')
     rep.assumptions = ['zmq queues deliver what is put into them',
@@ -2313,6 +3138,10 @@ def run(prog, rep, tier):
     rep.attempt(r05_7, prog, rep)
     rep.attempt(r05_8, prog, rep)
     rep.attempt(r05_9, prog, rep)
+    rep.attempt(r05_10, prog, rep)
+    rep.attempt(r05_11, prog, rep)
+    rep.attempt(r05_12, prog, rep)
+    rep.attempt(r05_13, prog, rep)
     # exactly one final state when process exit and cancel coincide
     from .c07 import r07_2
     rep.attempt(r07_2, prog, rep, rid='R07.2')
@@ -2549,4 +3378,267 @@ SILENT += [
     dict(name='R05.9 sites: all of FINAL refused in Task._update instead of in the caller', edits=[
         (_TM, _c06._GUARD, ""), (_TM, _c06._CALL, _c06._CALL_CHANGED),
         ('task.py', _c06._STICKY, "        if current in rps.FINAL:")]),
+]
+
+# ------------------------------------------------------------------------------
+# round 4: R05.7 on BaseComponent.work_cb, R05.4b sorting loop, R05.10 .. R05.13
+#
+_FX = 'agent/executing/flux.py'
+_MA = 'raptor/master.py'
+_RR = 'tmgr/scheduler/round_robin.py'
+
+_WCB_REC  = ("                        for thing in things:\n"
+             "                            thing['exception']        = repr(e)\n"
+             "                            thing['exception_detail'] = \\\n"
+             "                                             '\\n'.join(ru.get_exception_trace())\n"
+             "\n")
+_WCB_ADV  = ("                        self.advance(things, rps.FAILED, publish=True,\n"
+             "                                                         push=False)\n"
+             "\n")
+_TO_SKIP  = ("                no_staging_tasks.append(task)\n"
+             "                continue\n")
+_TO_BULK  = "            self.advance(no_staging_tasks, publish=True, push=True)\n"
+_MA_RET   = ("                if ret is None:\n"
+             "                    ret = -1\n")
+_MA_MAP   = ("                if int(ret) == 0: task['target_state'] = rps.DONE\n"
+             "                else            : task['target_state'] = rps.FAILED\n")
+_AC_SIG   = ("    def advance(self, things, state=None, publish=True, push=False, qname=None,\n"
+             "                      ts=None, fwd=True, prof=True):\n"
+             "\n"
+             "        things = ru.as_list(things)\n"
+             "\n"
+             "        # CANCELED and FAILED is handled on the client side\n")
+_AC_SUPER = ("              #     thing['state'] = state\n"
+             "\n"
+             "            publish = True\n"
+             "            push    = False\n"
+             "\n"
+             "        super().advance(things=things, state=state, publish=publish, push=push,\n"
+             "                        qname=qname, ts=ts, fwd=fwd, prof=prof)\n")
+_TRUNC    = ("                    if target in [rps.CANCELED, rps.FAILED]:\n"
+             "                        # don't replay intermediate states\n"
+             "                        passed = passed[-1:]\n")
+_REPLAY   = "                    for s in passed:\n"
+_FX_H     = ("            except:\n"
+             "                self._log.exception('LM flux submit failed for %s', tid)\n")
+_MA_H     = ("        except:\n"
+             "            self._log.exception('request cb failed')\n")
+_RR_H     = ("                    self._log.exception('task schedule preparation failed')\n")
+
+MUTATIONS += [
+    # R05.7 (c) on the handler of the worker call
+    dict(name='R05.7 work_cb fails the things before the exception is recorded (seed C05-g1)', rules=('R05.7',), edits=[
+        (_U, _WCB_REC + _WCB_ADV, _WCB_ADV + _WCB_REC)],
+         note='advance publishes the full thing at once and FAILED is final: Task.exception stays None'),
+    dict(name='R05.7 work_cb fails thing by thing, each before its record', rules=('R05.7',), edits=[
+        (_U, _WCB_REC + _WCB_ADV,
+         "                        for thing in things:\n"
+         "                            self.advance(thing, rps.FAILED, publish=True,\n"
+         "                                                            push=False)\n"
+         "                            thing['exception']        = repr(e)\n"
+         "                            thing['exception_detail'] = \\\n"
+         "                                             '\\n'.join(ru.get_exception_trace())\n\n")]),
+    dict(name='R05.7 work_cb records the exception only for bulks of more than one thing', rules=('R05.7',), edits=[
+        (_U, _WCB_REC,
+         "                        if len(things) > 1:\n"
+         "                            for thing in things:\n"
+         "                                thing['exception']        = repr(e)\n"
+         "                                thing['exception_detail'] = \\\n"
+         "                                             '\\n'.join(ru.get_exception_trace())\n\n")]),
+    dict(name='R05.7 work_cb: helper method fails the things before it records the exception', rules=('R05.7',), edits=[
+        (_U, _WCB_REC + _WCB_ADV, "                        self._fail_things(things, e)\n\n"),
+        (_U, "    # --------------------------------------------------------------------------\n    #\n    def advance(self, things, state=None, publish=True, push=False, qname=None,\n                              ts=None, fwd=False, prof=True):",
+             "    # --------------------------------------------------------------------------\n    #\n"
+             "    def _fail_things(self, things, exc):\n\n"
+             "        self.advance(things, rps.FAILED, publish=True, push=False)\n\n"
+             "        for thing in things:\n"
+             "            thing['exception']        = repr(exc)\n"
+             "            thing['exception_detail'] = '\\n'.join(ru.get_exception_trace())\n\n\n"
+             "    # --------------------------------------------------------------------------\n    #\n    def advance(self, things, state=None, publish=True, push=False, qname=None,\n                              ts=None, fwd=False, prof=True):")]),
+    # R05.10
+    dict(name='R05.10 work_cb records the exception on the first thing only', rules=('R05.10', 'R05.7'), edits=[
+        (_U, "                        for thing in things:\n                            thing['exception']        = repr(e)",
+             "                        for thing in things[:1]:\n                            thing['exception']        = repr(e)")]),
+    dict(name='R05.10 executor fails a task that could not be launched without the exception', rules=('R05.10',), edits=[
+        (_P, "                self._log.exception(\"error running Task\")\n"
+             "                task['exception']        = repr(e)\n"
+             "                task['exception_detail'] = '\\n'.join(ru.get_exception_trace())\n",
+             "                self._log.exception(\"error running Task\")\n")]),
+    dict(name='R05.10 agent input stager records the exception on the bulk variable', rules=('R05.10',), edits=[
+        (_AI, "                task['exception']        = repr(e)\n                task['exception_detail'] = '\\n'.join(ru.get_exception_trace())\n\n                self.advance(task, rps.FAILED)",
+              "                tasks[0]['exception']        = repr(e)\n\n                self.advance(task, rps.FAILED)")]),
+    # R05.4b sorting loop
+    dict(name='R05.4b failed tasks fall through to the directive check (seed C05-g3)', rules=('R05.4b',), edits=[
+        (_TO, _TO_SKIP, "                no_staging_tasks.append(task)\n")],
+         note='a FAILED / CANCELED task is finalized twice'),
+    dict(name='R05.4b tasks without TRANSFER directives are not collected', rules=('R05.4b',), edits=[
+        (_TO, "                staging_tasks.append([task, actionables])\n            else:\n                no_staging_tasks.append(task)\n",
+              "                staging_tasks.append([task, actionables])\n")]),
+    dict(name='R05.4b skipped tasks are dropped (continue without collecting)', rules=('R05.4b',), edits=[
+        (_TO, _TO_SKIP, "                continue\n")]),
+    dict(name='R05.4b the bulk of tasks without staging is advanced twice', rules=('R05.4b',), edits=[
+        (_TO, _TO_BULK, _TO_BULK + "\n        if no_staging_tasks:\n" + _TO_BULK)]),
+    # R05.11
+    dict(name='R05.11 a missing exit code counts as success (seed C05-g2)', rules=('R05.11',), edits=[
+        (_MA, _MA_RET, "                if ret is None:\n                    ret = 0\n")]),
+    dict(name='R05.11 negative exit codes (killed by signal) count as success', rules=('R05.11',), edits=[
+        (_MA, "                if int(ret) == 0: task['target_state'] = rps.DONE", "                if int(ret) <= 0: task['target_state'] = rps.DONE")]),
+    dict(name='R05.11 missing exit code tested by truthiness: DONE unless a code was set', rules=('R05.11',), edits=[
+        (_MA, _MA_RET + "\n" + _MA_MAP,
+         "                if ret: task['target_state'] = rps.FAILED\n"
+         "                else  : task['target_state'] = rps.DONE\n")]),
+    # R05.12
+    dict(name='R05.12 agent side state updates are not forwarded by default (seed C05-g4)', rules=('R05.12',), edits=[
+        (_U, _AC_SIG, _AC_SIG.replace("fwd=True", "fwd=False"))]),
+    dict(name='R05.12 FAILED / CANCELED of an agent component are kept on the pilot', rules=('R05.12',), edits=[
+        (_U, _AC_SUPER, _AC_SUPER.replace("            push    = False\n", "            push    = False\n            fwd     = False\n"))]),
+    dict(name='R05.12 the update message is published without the forward flag of the caller', rules=('R05.12',), edits=[
+        (_U, "                                            'fwd': fwd})", "                                            'fwd': False})")]),
+    # R05.13
+    dict(name='R05.13 the first instead of the last passed state is kept (seed C05-g5)', rules=('R05.13',), edits=[
+        (_TM, "                        passed = passed[-1:]\n", "                        passed = passed[:1]\n")],
+         note='cancel of a task that waits for the tmgr input stager: Task.state stays TMGR_STAGING_INPUT'),
+    dict(name='R05.13 everything but the last passed state is kept', rules=('R05.13',), edits=[
+        (_TM, "                        passed = passed[-1:]\n", "                        passed = passed[:-1]\n")]),
+    dict(name='R05.13 truncation in place keeps the head of the list', rules=('R05.13',), edits=[
+        (_TM, "                        passed = passed[-1:]\n", "                        del passed[1:]\n")]),
+    dict(name='R05.13 the replay loop iterates the first passed state only', rules=('R05.13',), edits=[
+        (_TM, _TRUNC + "\n" + _REPLAY,
+         "                    if target in [rps.CANCELED, rps.FAILED]:\n"
+         "                        # don't replay intermediate states\n"
+         "                        n_replay = 1\n"
+         "                    else:\n"
+         "                        n_replay = len(passed)\n\n"
+         "                    for s in passed[:n_replay]:\n")]),
+]
+
+SILENT += [
+    # the handler of the worker call
+    dict(name='R05.7 work_cb: record by update(), renamed element, guard in early-continue form', edits=[
+        (_U, "                    if state:\n" + _WCB_REC + _WCB_ADV,
+         "                    if not state:\n"
+         "                        continue\n\n"
+         "                    trace = '\\n'.join(ru.get_exception_trace())\n"
+         "                    for failed_thing in things:\n"
+         "                        failed_thing.update({'exception'       : repr(e),\n"
+         "                                             'exception_detail': trace})\n\n"
+         "                    self.advance(things, rps.FAILED, publish=True, push=False)\n\n")]),
+    dict(name='R05.7 work_cb: things failed one by one, each after its record', edits=[
+        (_U, _WCB_REC + _WCB_ADV,
+         "                        for thing in things:\n"
+         "                            thing['exception']        = repr(e)\n"
+         "                            thing['exception_detail'] = \\\n"
+         "                                             '\\n'.join(ru.get_exception_trace())\n"
+         "                            self.advance(thing, rps.FAILED, publish=True,\n"
+         "                                                            push=False)\n\n")],
+         note='one update message per thing instead of one per bulk: not a change of the property'),
+    dict(name='R05.7 work_cb: record loop over a copy of the bulk, detail recorded first', edits=[
+        (_U, _WCB_REC,
+         "                        detail = '\\n'.join(ru.get_exception_trace())\n"
+         "                        for thing in list(things):\n"
+         "                            thing['exception_detail'] = detail\n"
+         "                            thing['exception']        = repr(e)\n\n")]),
+    dict(name='R05.7 work_cb: record and hand-on extracted into a helper method', edits=[
+        (_U, _WCB_REC + _WCB_ADV, "                        self._fail_things(things, e)\n\n"),
+        (_U, "    # --------------------------------------------------------------------------\n    #\n    def advance(self, things, state=None, publish=True, push=False, qname=None,\n                              ts=None, fwd=False, prof=True):",
+             "    # --------------------------------------------------------------------------\n    #\n"
+             "    def _fail_things(self, things, exc):\n\n"
+             "        for thing in things:\n"
+             "            thing['exception']        = repr(exc)\n"
+             "            thing['exception_detail'] = '\\n'.join(ru.get_exception_trace())\n\n"
+             "        self.advance(things, rps.FAILED, publish=True, push=False)\n\n\n"
+             "    # --------------------------------------------------------------------------\n    #\n    def advance(self, things, state=None, publish=True, push=False, qname=None,\n                              ts=None, fwd=False, prof=True):")]),
+    # R05.10: the three handlers repaired in the way their siblings do it
+    dict(name='R05.10 Flux.work handler records the exception (repair)', edits=[
+        (_FX, _FX_H,
+         "            except Exception as e:\n"
+         "                self._log.exception('LM flux submit failed for %s', tid)\n"
+         "                task['exception']        = repr(e)\n"
+         "                task['exception_detail'] = '\\n'.join(ru.get_exception_trace())\n")]),
+    dict(name='R05.10 Master._request_cb handler records the exception on every task (repair)', edits=[
+        (_MA, _MA_H,
+         "        except Exception as e:\n"
+         "            self._log.exception('request cb failed')\n"
+         "            for task in tasks:\n"
+         "                task['exception']        = repr(e)\n"
+         "                task['exception_detail'] = '\\n'.join(ru.get_exception_trace())\n")]),
+    dict(name='R05.10 Master._request_cb handler fails task by task after the record (repair)', edits=[
+        (_MA, _MA_H + "            self.advance(tasks, rps.FAILED, publish=True, push=False)\n",
+         "        except Exception as e:\n"
+         "            self._log.exception('request cb failed')\n"
+         "            for task in tasks:\n"
+         "                task.update({'exception': repr(e)})\n"
+         "                self.advance(task, rps.FAILED, publish=True, push=False)\n")]),
+    dict(name='R05.10 RoundRobin handler records the exception before collecting the task (repair)', edits=[
+        (_RR, "                except Exception:\n" + _RR_H,
+         "                except Exception as e:\n" + _RR_H +
+         "                    task['exception']        = repr(e)\n"
+         "                    task['exception_detail'] = '\\n'.join(ru.get_exception_trace())\n")]),
+    # R05.4b sorting loop
+    dict(name='R05.4b sorting loop as if / else, lists renamed (seed C05-r3 shape)', edits=[
+        (_TO, _TO_SKIP + "\n            # check if we have any staging directives to be enacted in this\n            # component\n"
+              "            actionables = list()\n            for sd in task['description'].get('output_staging', []):\n\n"
+              "                if sd['action'] == rpc.TRANSFER:\n                    actionables.append(sd)\n\n"
+              "            if actionables:\n                staging_tasks.append([task, actionables])\n            else:\n                no_staging_tasks.append(task)\n",
+              "                no_staging_tasks.append(task)\n\n"
+              "            else:\n"
+              "                todo = [sd for sd in task['description'].get('output_staging', [])\n"
+              "                           if sd['action'] == rpc.TRANSFER]\n"
+              "                if not todo:\n"
+              "                    no_staging_tasks.append(task)\n"
+              "                else:\n"
+              "                    staging_tasks.append((task, todo))\n")]),
+    dict(name='R05.4b sorting loop: every branch ends with continue, += instead of append', edits=[
+        (_TO, "            if actionables:\n                staging_tasks.append([task, actionables])\n            else:\n                no_staging_tasks.append(task)\n",
+              "            if actionables:\n                staging_tasks += [[task, actionables]]\n                continue\n\n            no_staging_tasks += [task]\n")]),
+    dict(name='R05.4b sorting loop: outcome test hoisted, directive scan skipped by a flag', edits=[
+        (_TO, "            if target_state and target_state != rps.DONE:\n                self._log.debug('skip staging for %s', task['uid'])\n" + _TO_SKIP,
+              "            skip = bool(target_state and target_state != rps.DONE)\n"
+              "            if skip:\n                self._log.debug('skip staging for %s', task['uid'])\n" + _TO_SKIP)]),
+    dict(name='R05.4b bulk hand-on in both arms of a test', edits=[
+        (_TO, _TO_BULK,
+         "            if len(no_staging_tasks) > 1:\n"
+         "                self.advance(no_staging_tasks, publish=True, push=True)\n"
+         "            else:\n"
+         "                self.advance(no_staging_tasks, push=True, publish=True)\n")]),
+    # R05.11
+    dict(name='R05.11 missing exit code replaced by 1, mapping with the arms exchanged', edits=[
+        (_MA, _MA_RET + "\n" + _MA_MAP,
+         "                if ret is None:\n                    ret = 1\n\n"
+         "                if int(ret) != 0:\n                    task['target_state'] = rps.FAILED\n"
+         "                else:\n                    task['target_state'] = rps.DONE\n")]),
+    dict(name='R05.11 missing exit code handled in the mapping itself', edits=[
+        (_MA, _MA_RET + "\n" + _MA_MAP,
+         "                if ret is not None and int(ret) == 0:\n                    task['target_state'] = rps.DONE\n"
+         "                else:\n                    task['target_state'] = rps.FAILED\n")]),
+    dict(name='R05.11 target state chosen by a conditional expression', edits=[
+        (_MA, _MA_RET + "\n" + _MA_MAP,
+         "                code = -1 if ret is None else int(ret)\n"
+         "                task['target_state'] = rps.DONE if code == 0 else rps.FAILED\n")]),
+    # R05.12
+    dict(name='R05.12 AgentComponent.advance passes the flags on positionally', edits=[
+        (_U, _AC_SUPER, _AC_SUPER.replace(
+            "        super().advance(things=things, state=state, publish=publish, push=push,\n"
+            "                        qname=qname, ts=ts, fwd=fwd, prof=prof)\n",
+            "        super().advance(things, state, publish, push, qname, ts, fwd, prof)\n"))]),
+    dict(name='R05.12 forward default named by a module constant', edits=[
+        (_U, _AC_SIG, _AC_SIG.replace("fwd=True", "fwd=_AGENT_FWD")),
+        (_U, "class AgentComponent(BaseComponent):\n", "_AGENT_FWD = True\n\n\nclass AgentComponent(BaseComponent):\n")]),
+    dict(name='R05.12 forward flag held in a local before the base call', edits=[
+        (_U, _AC_SUPER, _AC_SUPER.replace(
+            "        super().advance(things=things, state=state, publish=publish, push=push,\n"
+            "                        qname=qname, ts=ts, fwd=fwd, prof=prof)\n",
+            "        forward = fwd\n"
+            "        super().advance(things=things, state=state, publish=publish, push=push,\n"
+            "                        qname=qname, ts=ts, prof=prof, fwd=forward)\n"))]),
+    # R05.13
+    dict(name='R05.13 truncation in place: everything in front of the last state deleted', edits=[
+        (_TM, "                        passed = passed[-1:]\n", "                        del passed[:-1]\n")]),
+    dict(name='R05.13 truncation by slice assignment', edits=[
+        (_TM, "                        passed = passed[-1:]\n", "                        passed[:] = passed[-1:]\n")]),
+    dict(name='R05.13 truncation: guard hoisted into a local, negative index spelled with len()', edits=[
+        (_TM, _TRUNC,
+         "                    only_last = target in [rps.CANCELED, rps.FAILED]\n"
+         "                    if only_last:\n"
+         "                        passed = passed[len(passed) - 1:]\n")]),
 ]
